@@ -528,8 +528,7 @@ func checkC05(p *Prog, res *Result, tier string) {
 	}
 
 	// ---- R7: writes whose outcome is unknown are queued for repair so that they eventually produce their event (C09-R1) ----
-	sub9 := newResult("C09")
-	checkC09(p, sub9, tier)
+	sub9 := p.subResult("C09", tier)
 	for _, o := range sub9.Obls {
 		// queued before commit (R1), kept queued until the repair is known to have landed (R3: head not popped),
 		// and never turned into a definite failure on the way (R6): otherwise the applied write gets no event
